@@ -223,6 +223,18 @@ def run_shard(desc, tier):
                     got1, got2 = _call(b, sb), _call(b, sb)
                     r.count("evaluations", 3)
                     r.count("distinct_nontrivial")
+                    # what an earlier caller was handed stays that caller's: resolving another header must not change it
+                    from baize.responses import FileResponseMixin
+                    try:
+                        held = FileResponseMixin.parse_range(a, sa)
+                        snapshot = [tuple(x) for x in held]
+                    except Exception:  # noqa
+                        held = None
+                    if held is not None:
+                        _call(b, sb)
+                        if [tuple(x) for x in held] != snapshot:
+                            r.violation("repeat:result-changed-under-caller", {"header": b, "size": sb, "before": a, "before_size": sa},
+                                        f"the ranges returned by parse_range({a!r}, {sa}) were {snapshot} and read {[tuple(x) for x in held]} after parse_range({b!r}, {sb}) was resolved")
                     if got1 != first[(b, sb)] or got2 != first[(b, sb)]:
                         r.violation("repeat:answer-depends-on-history", {"header": b, "size": sb, "before": a, "before_size": sa},
                                     f"parse_range({b!r}, {sb}) right after parse_range({a!r}, {sa}): {got1!r:.80}, and once more: {got2!r:.80}; in a fresh sequence it gave {first[(b, sb)]!r:.80}")
